@@ -393,6 +393,32 @@ func work(ctx *runner.Ctx) {
 			}
 		}
 	}
+	// (2b) a deep operation whose result is partly masked to constants (and / shift / narrowing) and then consumed by
+	// a comparison or another deep operation: constant propagation rewires gate inputs behind deep gates, and the
+	// target-specific level sort and pruning work on what it leaves behind
+	for _, t := range []string{"uint8", "int8", "uint6"} {
+		for _, deep := range []string{"a * b", "a + b", "a / (b | 1)", "a * a + b"} {
+			for _, mask := range []string{"(%s) & 15", "(%s) & 240", "(%s) >> 4", "(%s) << 4", "(%s) & 1", "((%s) & 15) | 32"} {
+				for _, use := range []string{"%s == b", "%s < a", "%s * b", "%s + (b & 3)", "%s > 7"} {
+					if quick && (t == "uint6" || strings.Contains(deep, "/")) && !strings.Contains(use, "==") {
+						continue
+					}
+					m := fmt.Sprintf(mask, deep)
+					rt := t
+					if strings.Contains(use, "==") || strings.Contains(use, "<") || strings.Contains(use, ">") {
+						rt = "bool"
+					}
+					k := "15"
+					_ = k
+					src := fmt.Sprintf("package main\n\nfunc main(a, b %s) %s {\n\treturn %s\n}\n", t, rt, fmt.Sprintf(use, "("+m+")"))
+					if t == "uint6" {
+						src = strings.ReplaceAll(strings.ReplaceAll(src, "240", "48"), "| 32", "| 16")
+					}
+					cases = append(cases, cs{Src: src, Fam: "masked-deep"})
+				}
+			}
+		}
+	}
 	// (3) structured programs
 	for _, s := range structured {
 		cases = append(cases, cs{Src: s, Fam: "structured"})
